@@ -192,6 +192,15 @@ func (x *Exec) loopBack(fr *Frame, li *loopInfo, from *ssa.BasicBlock) {
 		t := x.evalBool(env, inv.E)
 		x.oblige("inv-keep", fmt.Sprintf("inv#%d.%d/keep@b%d", li.ordinal, k+1, x.backOrdinal(fr, li, from)), g, t, "loop invariant preserved: "+inv.Text, b.Instrs[0].Pos(), false)
 	}
+	for _, pn := range spec.Passes {
+		// "passes G": an iteration that goes round the loop has been through the program
+		// point of bind G (a step that must not be skipped for any element)
+		r, ok := x.ghostReached[pn]
+		if !ok {
+			r = tFalse
+		}
+		x.oblige("inv-keep", fmt.Sprintf("passes#%d.%s/keep@b%d", li.ordinal, pn, x.backOrdinal(fr, li, from)), g, r, "every iteration passes the program point of bind "+pn, b.Instrs[0].Pos(), false)
+	}
 	if spec.ModGiven && !x.discover {
 		head := fr.headSt[b]
 		for _, h := range li.written {
